@@ -49,3 +49,11 @@ def frame_rows(ta, rank: int, cols=("ts", "dur", "stream")) -> List[Dict[str, An
         d["cat"] = st[int(row[len(cols) + 1])]
         out.append(d)
     return out
+
+
+def file_entries(case: Dict[str, Any], rank: int) -> List[Dict[str, Any]]:
+    """[id, name, cat] of the complete entries of the rank's input file (id = position in traceEvents): what every loaded row must decode to.
+    Recorded so that TLC can tell a wrong loader (rows that no longer say what the file said: a violation) from an input outside the
+    property's domain (a generator bug)."""
+    rt = next(r for r in case["ranks"] if r["rank"] == rank)
+    return [{"id": i, "name": e["name"], "cat": e["cat"]} for i, e in enumerate(rt["events"]) if hta.is_complete(e)]
